@@ -22,11 +22,11 @@ ASSUMPTIONS = [
 ]
 N_RANDOM = {'quick': 1500, 'thorough': 10000}
 STAGES = ['shuffle_once', 'reshuffle', 'local', 'local_copy', 'reshuffle_catch', 'reshuffle_apply', 'reshuffle_copy',
-          'reshuffle_prefetch', 'tile_shuffle', 'choice']
+          'reshuffle_prefetch', 'reshuffle_and_copies', 'local_items', 'reshuffle_items', 'tile_shuffle', 'choice']
 
 
 # stages whose iteration runs ReShuffleDataset.__iter__ directly on the shared object (the K1 situation)
-BARE_RESHUFFLE = ('reshuffle', 'reshuffle_copy')
+BARE_RESHUFFLE = ('reshuffle', 'reshuffle_copy', 'reshuffle_items')
 
 
 def plan(tier):
@@ -45,6 +45,14 @@ def build(stage, n, buf, sd, extra):
         return base.shuffle(True, rng=rng).map(lambda x: x).copy(), n
     if stage == 'reshuffle_catch':
         return base.shuffle(True, rng=rng).map(lambda x: x).catch(), n
+    if stage == 'reshuffle_and_copies':
+        rs = base.shuffle(True, rng=rng)
+        return [rs, rs.copy(), rs.map(lambda x: x).copy()], n  # every iterator gets its OWN object
+    if stage in ('local_items', 'reshuffle_items'):
+        keyed = lazy_dataset.new({f'key{i}': i for i in range(n)})
+        if stage == 'local_items':
+            return keyed.shuffle(True, rng=rng, buffer_size=buf).items().map(unpair), n
+        return keyed.shuffle(True, rng=rng).items().map(unpair), n
     if stage == 'reshuffle_prefetch':
         return base.shuffle(True, rng=rng).map(lambda x: x).prefetch(2, 2), n
     if stage == 'reshuffle_apply':
@@ -61,9 +69,19 @@ def build(stage, n, buf, sd, extra):
     raise ValueError(stage)
 
 
+def unpair(kv):
+    """(key, example) -> example, checking that the pair carries the example's own key."""
+    if not (isinstance(kv, tuple) and len(kv) == 2 and kv[0] == f'key{kv[1]}'):
+        raise Violation('items-pair-wrong|keyed-shuffle', f'items() of a shuffled dataset yielded {kv!r}')
+    return kv[1]
+
+
 def run_word(ds, word, n_iters):
     """Drive n_iters iterators over the same object with an explicit next() order. Returns outputs, overlap info."""
-    its = [iter(ds) for _ in range(n_iters)]
+    if isinstance(ds, list):
+        its = [iter(ds[i % len(ds)]) for i in range(n_iters)]  # distinct objects (an original and its copies)
+    else:
+        its = [iter(ds) for _ in range(n_iters)]
     outs = [[] for _ in range(n_iters)]
     started = [None] * n_iters
     finished = [None] * n_iters
@@ -126,7 +144,7 @@ def check(case):
                 blk = out[r * n:(r + 1) * n]
                 if sorted(blk) != list(range(n)):
                     raise Violation('tile-block-not-a-permutation|tile_shuffle', f'{desc}\nblock {r}: {blk}')
-        if stage in ('local', 'local_copy'):
+        if stage in ('local', 'local_copy', 'local_items'):
             for pos, src in enumerate(out):
                 if src - pos > buf - 1:
                     raise Violation(f'displacement|{stage}',
@@ -137,7 +155,7 @@ def check(case):
 
 def nontrivial(case, alternations):
     return (case.get('iters', 1) >= 2 and alternations >= 1) or \
-        (case['stage'] in ('local', 'local_copy') and case.get('buffer', 1) < case['n'])
+        (case['stage'] in ('local', 'local_copy', 'local_items') and case.get('buffer', 1) < case['n'])
 
 
 def replay(case):
@@ -157,7 +175,7 @@ def st_case(draw):
     stage = draw(st.sampled_from(STAGES))
     n = draw(st.integers(0, 9))
     case = {'stage': stage, 'n': n, 'seed': draw(st.integers(0, 10000))}
-    if stage in ('local', 'local_copy'):
+    if stage in ('local', 'local_copy', 'local_items'):
         case['buffer'] = draw(st.integers(1, n + 1))
     if stage == 'tile_shuffle':
         case['extra'] = draw(st.integers(1, 3))
@@ -196,7 +214,7 @@ def run_shard(tier, idx, nshards, rec, known):
     nmax3 = 2 if tier == 'quick' else 3
     k = 0
     for stage in ['shuffle_once', 'reshuffle', 'local', 'local_copy', 'reshuffle_catch', 'reshuffle_apply',
-                  'reshuffle_copy', 'reshuffle_prefetch']:
+                  'reshuffle_copy', 'reshuffle_prefetch', 'reshuffle_and_copies', 'local_items', 'reshuffle_items']:
         for n_iters, nmax in ((1, 5), (2, nmax2), (3, nmax3)):
             for n in range(0, nmax + 1):
                 bufs = range(1, n + 2) if stage.startswith('local') else [1]
